@@ -18,7 +18,7 @@ from dsim.c14 import launcher
 PROP = "C14"
 
 TIERS = {
-    "quick": {"targets": 170, "runs": 190, "ref_seeds": [0, 1, 20260924], "fresh_checks": 6, "redo": 8, "min_budget": 24,
+    "quick": {"targets": 320, "runs": 300, "ref_seeds": [0, 1, 20260924], "fresh_checks": 6, "redo": 8, "min_budget": 24,
               "chunk": 12, "budget_s": 420, "torchlib": False},
     "thorough": {"targets": 1500, "runs": 5000, "ref_seeds": [0, 1, 2, 3, 7, 1234567, 20260924, 4294967295], "fresh_checks": 40,
                  "redo": 250, "min_budget": 60, "chunk": 25, "budget_s": 3300, "torchlib": True},
@@ -29,21 +29,89 @@ SKEWS = [0, 0, 0, 64, 1000, 20000]
 
 # ------------------------------------------------------------------ generation
 
-def gen_targets(seed: int, tier: dict, pools) -> list[dict]:
-    rng = Rng(seed).sub("targets")
-    kinds = [("translate", 5), ("optimize", 4), ("rewrite", 4), ("convert", 2)]
-    out, seen = [], set()
-    i = 0
-    while len(out) < tier["targets"] and i < tier["targets"] * 5:
-        op = pools.any_op(rng.sub(i), kinds)
-        i += 1
-        if op["id"] in seen:
-            continue
-        seen.add(op["id"])
-        out.append(op)
-    if tier.get("torchlib"):
-        from dsim.c14.pools import with_id
+OBJECT_CONFIGS = [
+    # (weight, kind, params): each names one long-lived object (or API entry) that successive operations share
+    (4, "optimize", {"api": "fold_pass"}),
+    (2, "optimize", {"api": "fold_pass", "opts": {"onnx_shape_inference": False}}),
+    (1, "optimize", {"api": "fold_pass", "opts": {"input_size_limit": 8}}),
+    (3, "optimize", {"api": "proto"}),
+    (2, "optimize", {"api": "ir"}),
+    (1, "optimize", {"api": "ir", "opts": {"num_iterations": 1}}),
+    (1, "optimize", {"api": "proto", "opts": {"stop_if_no_change": False, "num_iterations": 3}}),
+    (1, "optimize", {"api": "proto", "opts": {"inline": False}}),
+    (1, "optimize", {"api": "fold"}),
+    (1, "optimize", {"api": "inline"}),
+    (1, "optimize", {"api": "remove_unused"}),
+    (1, "optimize", {"api": "ir_should_fold", "raise_at": 1}),
+    (1, "optimize", {"api": "ir_should_fold", "raise_at": 3}),
+    (4, "rewrite", {"rules": "default", "api": "pass"}),
+    (3, "rewrite", {"rules": "default", "api": "proto"}),
+    (2, "rewrite", {"rules": "default", "api": "ir"}),
+    (3, "rewrite", {"rules": "default_set", "api": "apply"}),
+    (1, "rewrite", {"rules": "default_commute", "api": "ir"}),
+    (2, "rewrite", {"rules": "group:reshape_reshape_rule,flatten_to_reshape_rule,cast_cast_rule,transpose_transpose_rule,unsqueeze_unsqueeze_rule", "api": "apply"}),
+    (2, "rewrite", {"rules": "group:fuse_pad_into_conv_rule,normalize_pad_format_conv_rule,fuse_batchnorm_into_conv_rule,fuse_batchnorm_into_gemm_rule", "api": "apply"}),
+    (2, "rewrite", {"rules": "group:materialize_reshape_shape_rule,min_min_rule,max_max_rule,min_max_rule,max_min_rule,successive_clip_rule,successive_relu_clip_rule", "api": "proto"}),
+    (1, "rewrite", {"rules": "group:matmul_add_to_gemm_rule,gemm_to_matmul_add_rule,collapse_slice_rule,cast_constant_of_shape_rule,slice_split_rule", "api": "ir"}),
+    (2, "convert", {"target": 18, "fallback": False, "api": "pass"}),
+    (2, "convert", {"target": 23, "fallback": False, "api": "pass"}),
+    (1, "convert", {"target": 21, "fallback": True, "api": "pass"}),
+    (1, "convert", {"target": 20, "fallback": False, "api": "proto"}),
+    (1, "convert", {"target": 25, "fallback": False, "api": "ir"}),
+    (1, "convert", {"target": 13, "fallback": True, "api": "proto"}),
+]
 
+
+def object_key(op: dict) -> str:
+    """Which long-lived object / entry point an operation goes through."""
+    if op["kind"] == "translate":
+        return "translate"
+    return jdump([op["kind"], op.get("api"), op.get("rules"), op.get("opts"), op.get("target"), op.get("fallback")])
+
+
+def gen_targets(seed: int, tier: dict, pools) -> list[dict]:
+    """Targets = (model x object config) operations plus script translations; structured so that every
+    long-lived object is shared by several targets."""
+    from dsim.c14.pools import with_id
+
+    rng = Rng(seed).sub("targets")
+    n = tier["targets"]
+    out, seen = [], set()
+
+    def add(op):
+        if op["id"] not in seen:
+            seen.add(op["id"])
+            out.append(op)
+
+    n_tr = n * 3 // 10
+    for i in range(n_tr):
+        add(pools.op_translate(rng.sub("t", i)))
+    n_models = max(8, (n - n_tr) // 4)
+    fams = pools.text_families()
+    from dsim.c14 import genmodels
+
+    # parameter families for the state-stashing rules: same structure and value names, different parameters.
+    # Each batch goes deep on a seeded subset of the families (>= 4 members each) rather than thin on all.
+    gen_fams = sorted(genmodels.FAMILIES)
+    rng.sub("famorder").shuffle(gen_fams)
+    per_fam = tier.get("per_family", 3)
+    n_gen = len(gen_fams)
+    gen_slots = [gen_fams[i // per_fam] for i in range(n_gen * per_fam)]
+    for i in range(len(gen_slots) + max(8, n_models // 3)):
+        r = rng.sub("m", i)
+        if i < len(gen_slots):
+            f, text = genmodels.gen_model(r.sub("gen"), gen_slots[i])
+            m = {"pool": "text", "text": text, "family": f}
+        else:
+            m = pools.model_ref(r, family=r.choice(fams) if r.chance(0.6) else None)
+        fam = m.pop("family", None) or m.get("path", "")
+        k = r.randint(3, 5)
+        for j in range(k):
+            _, kind, params = r.weighted([(c, c[0]) for c in OBJECT_CONFIGS])
+            if kind == "convert" and m["pool"] == "onnx_backend" and r.chance(0.5):
+                continue
+            add(with_id({"kind": kind, "model": m, "family": fam, **copy.deepcopy(params)}))
+    if tier.get("torchlib"):
         out.append(with_id({"kind": "torchlib", "family": "torchlib"}))
     return out
 
@@ -52,10 +120,16 @@ def gen_runs(seed: int, tier: dict, targets: list[dict], repo: str) -> list[dict
     runs = []
     by_family: dict = collections.defaultdict(list)
     by_kind: dict = collections.defaultdict(list)
+    by_obj: dict = collections.defaultdict(list)
     for t in targets:
         by_family[t.get("family")].append(t)
         by_kind[t["kind"]].append(t)
+        by_obj[object_key(t)].append(t)
     fams = sorted(k for k, v in by_family.items() if k and len(v) >= 2)
+    objs = sorted(k for k, v in by_obj.items() if len(v) >= 3 and k != "translate")
+    kinds_all = [k for k in ("translate", "optimize", "rewrite", "convert") if by_kind[k]]
+    gfams = [f for f in fams if f.startswith("gen:")]
+    stateful = [k for k in objs if any(a in k for a in ('"fold_pass"', '"pass"', '"apply"'))]
     for r in range(tier["runs"]):
         rng = Rng(seed).sub("run", r)
         env = {
@@ -64,14 +138,27 @@ def gen_runs(seed: int, tier: dict, targets: list[dict], repo: str) -> list[dict
         }
         length = rng.randint(2, 9)
         fault_density = rng.choice([0.0, 0.0, 0.25, 0.5])
-        # swarm: this run's enabled kinds
-        kinds = [k for k in ("translate", "optimize", "rewrite", "convert") if rng.chance(0.7) and by_kind[k]] or \
-                [k for k in ("translate", "optimize", "rewrite", "convert") if by_kind[k]]
-        focus = rng.choice(fams) if fams and rng.chance(0.45) else None
+        template = rng.weighted([("mix", 2), ("same_object", 4), ("family", 2), ("translate", 2), ("fail_then", 5)])
+        if template in ("same_object", "fail_then") and not objs:
+            template = "mix"
+        if template == "family" and not fams:
+            template = "mix"
+        env["template"] = template
+        kinds = [k for k in kinds_all if rng.chance(0.7)] or kinds_all
+        focus = rng.choice(fams) if template == "family" else None
+        obj = rng.choice(objs) if template in ("same_object", "fail_then") else None
+        if template == "fail_then" and stateful and rng.chance(0.8):
+            obj = rng.choice(stateful)  # objects that keep per-call state on self between calls
+        if template == "fail_then" and gfams and rng.chance(0.5):
+            obj, focus = None, rng.choice(gfams)  # ... or one rule's parameter family through any entry point
         ops = []
         for j in range(length):
-            if focus is not None and rng.chance(0.75):
+            if obj is not None and rng.chance(0.85):
+                op = copy.deepcopy(rng.choice(by_obj[obj]))
+            elif focus is not None and rng.chance(0.85):
                 op = copy.deepcopy(rng.choice(by_family[focus]))
+            elif template == "translate":
+                op = copy.deepcopy(rng.choice(by_kind["translate"]))
             else:
                 op = copy.deepcopy(rng.choice(by_kind[rng.choice(kinds)]))
             if op["kind"] == "torchlib" and j < length - 1:
@@ -87,6 +174,16 @@ def gen_runs(seed: int, tier: dict, targets: list[dict], repo: str) -> list[dict
         for j, op in enumerate(ops):
             if j < length - 1 and rng.chance(fault_density):
                 op["fault"] = {"frac": rng.below(10**6) / 10**6}
+        if template == "fail_then":
+            # a faulted operation immediately before another one on the same long-lived object
+            j = 0
+            while j < length - 1:
+                if (object_key(ops[j]) == object_key(ops[j + 1]) or ops[j].get("family") == ops[j + 1].get("family")) and rng.chance(0.8):
+                    ops[j]["fault"] = {"frac": rng.below(10**6) / 10**6}
+                    ops[j + 1].pop("fault", None)
+                    j += 2
+                else:
+                    j += 1
         env["skew"] = [rng.choice(SKEWS) for _ in ops]
         runs.append({"kit": common.KIT_VERSION, "property": PROP, "seed": seed, "run": r, "env": env,
                      "mode": "sequential", "ops": ops})
@@ -507,6 +604,9 @@ def check(tier_name: str, seed: int, max_runs: int | None = None) -> int:
         "eager-mode values after mutating globals are outside the oracle (protos only), DESIGN.md section 6.4",
     ]
     common.write_evidence(PROP, tier_name, seed, "exploration", coverage, assumptions, wall, len(reported))
+    run_digest = sha(jdump([[o.get("log"), o.get("error")] for o in outs]).encode()
+                     + jdump({str(h): {k: canon(v) for k, v in sorted(ref[h].items())} for h in tier["ref_seeds"]}).encode())
+    log(f"RUN-DIGEST {PROP} {run_digest}")
     for text, n in sorted(known_hits.items()):
         log(f"KNOWN-FINDING: property={PROP} {text} [{n} occurrences this run]")
     log(f"C14 {tier_name}: seed={seed} targets={len(targets)} runs={agg['runs']}/{len(runs)} checked_ops={agg['checked']} "
